@@ -82,6 +82,8 @@ pub struct Shared {
     obs_hashed: usize,
     obs_running: u64,
     pub greeting_len: usize,
+    /// short writes: the transport accepts at most this many bytes per write call
+    pub write_chunk: Option<usize>,
 }
 
 impl Shared {
@@ -149,6 +151,11 @@ impl AsyncWrite for MockIo {
             s.log.push(Obs::WriteErr);
             return Poll::Ready(Err(io::Error::new(io::ErrorKind::BrokenPipe, "injected write error")));
         }
+        // a transport may take fewer bytes than offered (short write); the caller has to come back
+        let buf = match s.write_chunk {
+            Some(c) if c < buf.len() => &buf[..c.max(1)],
+            _ => buf,
+        };
         s.c2s.extend_from_slice(buf);
         s.log.push(Obs::Write(buf.to_vec()));
         let rp = s.read_pos;
@@ -241,6 +248,8 @@ pub struct Scenario {
     pub cancel_budget: usize,
     /// how many times a request and readable bytes may hit the idle select in the same poll
     pub race_budget: usize,
+    /// `Some(n)`: the transport accepts at most n bytes per write call (short writes)
+    pub write_chunk: Option<usize>,
     pub faults: Vec<FaultKind>,
     pub fault_budget: usize,
     pub tick_anywhere: bool,
@@ -268,6 +277,7 @@ impl Scenario {
             split_menu: SplitMenu::Lines,
             cancel_budget: 0,
             race_budget: 1,
+            write_chunk: None,
             faults: vec![],
             fault_budget: 0,
             tick_anywhere: false,
@@ -291,6 +301,7 @@ impl Scenario {
             "split_menu": format!("{:?}", self.split_menu),
             "cancel_budget": self.cancel_budget,
             "race_budget": self.race_budget,
+            "write_chunk": self.write_chunk,
             "faults": self.faults.iter().map(|f| format!("{f:?}")).collect::<Vec<_>>(),
             "fault_budget": self.fault_budget,
             "tick_anywhere": self.tick_anywhere,
@@ -1226,6 +1237,7 @@ async fn run_async(scn: &Scenario, chooser: &mut dyn Chooser) -> Result<Trace, S
         obs_hashed: 0,
         obs_running: 0,
         greeting_len: scn.greeting.len(),
+        write_chunk: scn.write_chunk,
     }));
 
     let io = MockIo(shared.clone());
